@@ -49,8 +49,8 @@ Proof.
 Qed.
 
 Lemma Forall2_refl_conv G (l : list (term * term)) :
-  Forall2 (fun p q => conv G (fst p) (fst q) /\ conv G (snd p) (snd q)) l l.
-Proof. induction l; constructor; auto. split; apply c_refl. Qed.
+  Forall2 (fun p q => conv G (snd p) (snd q)) l l.
+Proof. induction l; constructor; auto. apply c_refl. Qed.
 
 Theorem step_in_conv : forall t G t', step t = Some t' -> conv G t t'.
 Proof.
@@ -69,7 +69,7 @@ Proof.
     + inversion H as [|? ? [_ IHd] _]; subst. cbn [snd] in IHd.
       destruct (step d) as [d'|] eqn:Sd.
       * injection Hs as <-. apply c_let; [|apply c_refl].
-        constructor; [cbn [fst snd]; split; [apply c_refl | eauto] | apply Forall2_refl_conv].
+        constructor; [cbn [fst snd]; eauto | apply Forall2_refl_conv].
       * destruct (is_value d); cbn [negb] in Hs; [|discriminate]. injection Hs as <-.
         apply group_unfold_conv.
   - (* neg *)
